@@ -42,6 +42,11 @@ func cmdSelftest(args []string) int {
 		trouble("the repository's tests fail against the instrumented overlay in pass-through mode:\n%s", tail(out, 80))
 	}
 	fmt.Printf("selftest: rewriter soundness ok (repository tests pass against the overlay, %.1fs)\n", time.Since(start).Seconds())
+	// 1b. the rewriter's own regression test: every blocking construct, same trace with and without a simulation
+	if out, err := run(simDir, goEnv(), goBin, "test", "-vet=off", "-count=1", "./instrument"); err != nil {
+		trouble("the rewriter's construct test fails:\n%s", tail(out, 60))
+	}
+	fmt.Println("selftest: rewriter construct test ok (receives in expressions, range over channels, labelled loops, locks, waits, sleeps)")
 	// 2. determinism
 	if len(props) == 0 {
 		props = allProps(bin, scratch)
